@@ -53,9 +53,20 @@ def opFresh (tr : Track) : Op → Prop
   | .resume j _ => ∀ m0 c, tr.opened[j]? = some (m0, c) → m0 = tr.muts
   | _ => True
 
+/-- the query exists in CPython (`Queries.fits`): when a slice bound exceeds `sys.maxsize` the sequence is no longer
+    than `sys.maxsize` — true of every Python sequence — and `islice(rule, k)` has `k ≤ sys.maxsize` -/
+def opFits (tr : Track) : Op → Prop
+  | .q q => fits q (specL tr.m)
+  | _ => True
+
 /-- **no iterator created before a mutator is advanced after it** (the complement of D-C10-stale) -/
 def NoStale : Track → List Op → Prop
   | _, [] => True
   | tr, op :: ops => opFresh tr op ∧ NoStale (specStep tr op).1 ops
+
+/-- every query of the history exists in CPython -/
+def AllFit : Track → List Op → Prop
+  | _, [] => True
+  | tr, op :: ops => opFits tr op ∧ AllFit (specStep tr op).1 ops
 
 end RSet
